@@ -93,6 +93,7 @@ func cmdScaled(args []string) {
 	distinct := map[string]bool{}
 	stats := map[string]int{}
 	junk := []byte{0xAA, 0xBB, 0xCC}
+	largeSeen := map[string]int{}
 	for i := range vf.M {
 		m := &vf.M[i]
 		if m.T.K == "o" || typeHasO(m.T) || typeHasM(m.T) {
@@ -121,7 +122,9 @@ func cmdScaled(args []string) {
 		}
 		for fi, f := range fields {
 			targets := []int{scaledSmall[(i+fi+seed)%len(scaledSmall)]}
-			if hlib.Thorough() || (i+seed)%6 == 0 {
+			largeSeen[f.Kind]++
+			if hlib.Thorough() || (i+seed)%6 == 0 || largeSeen[f.Kind] <= 4 {
+				// one vector in six, and the first few fields of every kind whatever the seed
 				targets = append(targets, scaledLarge[(i+fi+seed)%len(scaledLarge)])
 			}
 			if f.Kind == "listcount" || f.Kind == "mapcount" {
